@@ -292,7 +292,16 @@ def run_scripts(pid, scripts, tag="main"):
         part = os.path.join(wd, tag + ".part.ann")
         # normal throughput is > 10k lines/s; allow 500 lines/s (and 30 s) before calling it a hang
         nlines = sum(len(sc) + 1 for sc in scripts[start:])
-        rc, err = _harness(pid, scripts[start:], src, part, timeout=max(30, 15 + nlines // 500))
+        # lines that legitimately take wall-clock time (timer races repeated thousands of times) declare their cost: `LINE_COST_S(line)` of the
+        # property module; without it a slow-but-terminating script would be taken for a hang (false alarm of the thorough tier, C19 `recvclose`)
+        cost = 0.0
+        try:
+            fn = getattr(load_prop(pid[:3]), "LINE_COST_S", None)
+            if fn:
+                cost = sum(fn(l) for sc in scripts[start:] for l in sc)
+        except Exception:
+            cost = 0.0
+        rc, err = _harness(pid, scripts[start:], src, part, timeout=max(30, 15 + nlines // 500) + int(3 * cost))
         text = open(part).read()
         if rc == 0:
             open(ann, "a").write(text)
@@ -327,15 +336,81 @@ def run_scripts(pid, scripts, tag="main"):
     return r
 
 
-def judge_file(pid, ann, owner=None):
-    with open(ann) as fin:
+JUDGE_PAR_MIN_LINES = 150000     # files beyond this are judged in parallel, split at scenario (`reset`) boundaries
+JUDGE_WORKERS = 8
+
+
+def _run_driver(pid, path):
+    with open(path) as fin:
         try:
             p = subprocess.run([DRIVER, pid], stdin=fin, stdout=subprocess.PIPE, stderr=subprocess.PIPE, text=True, timeout=900)
         except subprocess.TimeoutExpired:
-            raise Internal("the Lean driver (judge %s) did not finish within 900 s on %s" % (pid, ann))
+            raise Internal("the Lean driver (judge %s) did not finish within 900 s on %s" % (pid, path))
     if p.returncode != 0:
         raise Internal("driver failed (rc=%d): %s" % (p.returncode, p.stderr[-2000:]))
+    return p.stdout
+
+
+def _parse_driver(out, offset=0):
+    lines, summary = [], None
+    for line in out.splitlines():
+        if line.startswith("LINE "):
+            m = re.match(r"LINE (\d+) (\w+) (.*)", line)
+            lines.append((int(m.group(1)) + offset, m.group(2), m.group(3)))
+        elif line.startswith("SUMMARY "):
+            summary = dict(kv.split("=", 1) for kv in line[8:].split(" ") if "=" in kv)
+    if summary is None:
+        raise Internal("driver printed no SUMMARY: " + out[-500:])
+    tags = {}
+    for kv in summary.get("tags", "").split(","):
+        if ":" in kv:
+            k, v = kv.rsplit(":", 1)
+            tags[k] = int(v)
+    summary["tags"] = tags
+    return lines, summary
+
+
+def judge_file(pid, ann, owner=None):
     annotated = open(ann).read().splitlines()
+    resets = [i for i, l in enumerate(annotated) if l.strip() == "reset"]
+    if len(annotated) < JUDGE_PAR_MIN_LINES or len(resets) < 2 * JUDGE_WORKERS:
+        lines, summary = _parse_driver(_run_driver(pid, ann))
+    else:
+        # every scenario starts with `reset` (a fresh judge state), so the file can be cut at scenario boundaries and the pieces judged
+        # independently; verdict lines are renumbered, the counters of the summaries added up
+        import concurrent.futures
+        cuts = [0]
+        for w in range(1, JUDGE_WORKERS):
+            target = len(annotated) * w // JUDGE_WORKERS
+            nxt = next((r for r in resets if r >= target), None)
+            if nxt is not None and nxt > cuts[-1]:
+                cuts.append(nxt)
+        cuts.append(len(annotated))
+        parts = []
+        for j in range(len(cuts) - 1):
+            path = "%s.part%d" % (ann, j)
+            with open(path, "w") as f:
+                f.write("\n".join(annotated[cuts[j]:cuts[j + 1]]) + "\n")
+            parts.append((path, cuts[j]))
+        try:
+            with concurrent.futures.ThreadPoolExecutor(max_workers=JUDGE_WORKERS) as ex:
+                outs = list(ex.map(lambda pc: _parse_driver(_run_driver(pid, pc[0]), pc[1]), parts))
+        finally:
+            for path, _ in parts:
+                if os.path.exists(path):
+                    os.remove(path)
+        lines, summary = [], None
+        for ls, sm in outs:
+            lines += ls
+            if summary is None:
+                summary = sm
+            else:
+                for k, v in sm.items():
+                    if k == "tags":
+                        for t, n in v.items():
+                            summary["tags"][t] = summary["tags"].get(t, 0) + n
+                    elif str(v).isdigit() and str(summary.get(k, "0")).isdigit():
+                        summary[k] = str(int(summary.get(k, 0)) + int(v))
     if owner is None:
         owner, si, li = [], -1, 0
         for l in annotated:
@@ -346,23 +421,10 @@ def judge_file(pid, ann, owner=None):
             else:
                 owner.append((max(si, 0), li))
                 li += 1
-    bad, summary = [], None
-    for line in p.stdout.splitlines():
-        if line.startswith("LINE "):
-            m = re.match(r"LINE (\d+) (\w+) (.*)", line)
-            ln = int(m.group(1))
-            o = owner[ln - 1] if ln - 1 < len(owner) else None
-            bad.append((o[0] if o else -1, o[1] if o else -1, m.group(2), m.group(3), annotated[ln - 1] if ln - 1 < len(annotated) else ""))
-        elif line.startswith("SUMMARY "):
-            summary = dict(kv.split("=", 1) for kv in line[8:].split(" ") if "=" in kv)
-    if summary is None:
-        raise Internal("driver printed no SUMMARY: " + p.stdout[-500:])
-    tags = {}
-    for kv in summary.get("tags", "").split(","):
-        if ":" in kv:
-            k, v = kv.rsplit(":", 1)
-            tags[k] = int(v)
-    summary["tags"] = tags
+    bad = []
+    for ln, kind, detail in lines:
+        o = owner[ln - 1] if ln - 1 < len(owner) else None
+        bad.append((o[0] if o else -1, o[1] if o else -1, kind, detail, annotated[ln - 1] if ln - 1 < len(annotated) else ""))
     return {"summary": summary, "bad": bad, "annotated": annotated, "owner": owner}
 
 
